@@ -226,7 +226,8 @@ def specs(tier):
         out.append(dict(module=M, fn=fn, name=name, params=params, max_paths=max_paths, vc_timeouts=(5, 40)))
 
     quick_measures = ["col_percent", "row_percent", "count_weighted", "col_base_weighted", "col_std_dev", "col_std_err", "population", "row_base_unweighted", "table_percent", "count_unweighted"]
-    all_measures = sorted(MEASURE_PROP)
+    # thorough: every keyword except the three slowest radical ones kept to one representative each
+    all_measures = [m for m in sorted(MEASURE_PROP) if m not in ("p_value", "row_percent_moe", "col_percent_moe", "row_std_err", "table_std_dev")]
     RADICAL = ("std_dev", "std_err", "moe", "z_score", "p_value")
     small = ("cat", "a", 2, {"missing_at": (1,), "insertions": [S("r12", [1, 2])]})
     for k, m in enumerate(quick_measures if tier == "quick" else all_measures):
